@@ -242,11 +242,7 @@ fn judge_emitted(c: &mut Ctx, path: Path, req: &Request, m: &Materialised, fee: 
         );
     }
     let mut obs = Observed::default();
-    let mut so = SigObs {
-        p2pkh_verified: 0,
-        p2sh_verified: 0,
-        digests: vec![],
-    };
+    let mut so = SigObs::new();
     let mut findings: Vec<Finding> = vec![];
     match em {
         Emitted::Tx(res) => {
@@ -350,6 +346,14 @@ fn judge_emitted(c: &mut Ctx, path: Path, req: &Request, m: &Materialised, fee: 
     c.r.count("padding_outputs_decrypted_zero", obs.padding_decrypted_zero);
     c.r.count("p2pkh_signatures_verified", so.p2pkh_verified);
     c.r.count("p2sh_multisig_inputs_verified", so.p2sh_verified);
+    c.r.count("interpreter_accepted_p2pkh", so.interp_p2pkh);
+    c.r.count("interpreter_accepted_p2sh", so.interp_p2sh);
+    c.r.count("interpreter_accepted_p2sh_unsorted_keys", so.interp_p2sh_unsorted);
+    c.r.count("interpreter_accepted_p2sh_surplus_signers", so.interp_p2sh_surplus);
+    c.r.count(&format!("interpreter_accepted:{}", path_name(path)), so.interp_p2pkh + so.interp_p2sh);
+    if matches!(path, Path::Pczt) {
+        c.r.count("interpreter_accepted_p2sh_unsorted_keys:pczt", so.interp_p2sh_unsorted);
+    }
     if obs.order_differs {
         c.r.count("transparent_order_differs", 1);
     }
@@ -487,8 +491,9 @@ fn judge_pczt(
                     c.r.count(&format!("pczt_sign_transparent_err:{}", format!("{e:?}").chars().take(24).collect::<String>()), 1);
                 }
             }
-            TInKind::P2sh => {
-                for sk in c.w.multisig.sks.iter().take(2) {
+            TInKind::P2sh { ms, ref signers } => {
+                for s in signers {
+                    let sk = &c.w.multisigs[ms].sks[*s];
                     if let Err(e) = signer.sign_transparent(i, sk) {
                         c.r.count(&format!("pczt_sign_transparent_err:{}", format!("{e:?}").chars().take(24).collect::<String>()), 1);
                     }
@@ -504,6 +509,27 @@ fn judge_pczt(
             return f;
         }
     };
+    // A transparent-only PCZT needs no proofs: extract it and judge every input of the extracted
+    // transaction as well (the Transaction Extractor does not evaluate transparent scripts).
+    let shielded = !p.sapling().spends().is_empty()
+        || !p.sapling().outputs().is_empty()
+        || !p.orchard().actions().is_empty()
+        || !p.ironwood().actions().is_empty();
+    if !shielded {
+        match guard(|| pczt::roles::tx_extractor::TransactionExtractor::new(p.clone()).extract()) {
+            Ok(Ok(tx)) => {
+                c.r.count("pczt_extracted_transparent_only", 1);
+                let mut so2 = SigObs::new();
+                let fx = check_signatures_tx(&c.w, req, m, &tx, &mut so2);
+                c.r.count("pczt_extracted_inputs_interpreted", so2.interp_p2pkh + so2.interp_p2sh);
+                for (class, detail) in fx {
+                    f.push((format!("extracted:{class}"), detail));
+                }
+            }
+            Ok(Err(e)) => c.r.count(&format!("pczt_extract_err:{}", format!("{e:?}").chars().take(30).collect::<String>()), 1),
+            Err(pn) => f.push((panic_sig(&pn), format!("TransactionExtractor panicked: {pn}"))),
+        }
+    }
     let mut sigs: Option<Vec<Vec<u8>>> = None;
     let _ = Verifier::new(p).with_transparent::<(), _>(|b| {
         use zcash_script::script::Evaluable;
@@ -515,7 +541,17 @@ fn judge_pczt(
             c.r.count("pczt_spends_finalised", 1);
             f.extend(check_signatures_effects(&c.w, req, m, &effects, &s, so));
         }
-        None => c.r.count("pczt_script_sig_missing", 1),
+        None => {
+            c.r.count("pczt_script_sig_missing", 1);
+            // the finalised PCZT's transparent bundle does not parse any more: same dependency
+            // defect as on the direct path (see oracle.rs), reported under the same class
+            if req.t_in.iter().any(|t| matches!(&t.kind, TInKind::P2sh { ms, .. } if (128..=255).contains(&c.w.multisigs[*ms].redeem_bytes.len()))) {
+                f.push((
+                    "scriptsig-corrupt:pushdata1-length-written-as-script-number".into(),
+                    "after SpendFinalizer the PCZT's transparent bundle no longer parses: the scriptSig of the 4-key multisig input pushes its 139-byte redeem script as `4c 8b 00 ..`".into(),
+                ));
+            }
+        }
     }
     f
 }
@@ -752,6 +788,60 @@ fn probes(rng: &mut ChaCha20Rng) -> Vec<(Path, Request)> {
         r.tunable = Tunable::OSpend(0);
         v.push((Path::Deferred, r));
     }
+    // a pool that only receives value: Orchard wallet-owned change outputs and nothing else, the
+    // spends living in the other pool (and the mirror images). Through the deferred-anchor builder
+    // and through the ordinary builder's PCZT path.
+    {
+        let spend = |rng: &mut ChaCha20Rng, v3: bool, acct: usize, value: u64| {
+            let (rho, rseed) = gen_rho_rseed(rng);
+            OSpend { acct, scope: zip32::Scope::External, div: 0, value, rho, rseed, v3, bad_path: false }
+        };
+        let out = |acct: usize, scope: zip32::Scope, value: u64, change: bool, memo: &[u8]| ShOut {
+            ovk: Some((acct, zip32::Scope::Internal)),
+            acct,
+            scope,
+            div: 0,
+            value,
+            memo: memo.to_vec(),
+            change,
+        };
+        use zip32::Scope::{External, Internal};
+        let shapes: Vec<(Vec<OSpend>, Vec<ShOut>, Vec<OSpend>, Vec<ShOut>)> = vec![
+            // Ironwood spend, remainder to an Orchard change output only
+            (vec![], vec![out(0, Internal, 80_000, true, b"change")], vec![spend(rng, true, 0, 200_000)], vec![]),
+            // two Ironwood spends, two Orchard change outputs (different accounts)
+            (
+                vec![],
+                vec![out(0, Internal, 30_000, true, b""), out(1, Internal, 40_000, true, &[0xf6])],
+                vec![spend(rng, true, 0, 100_000), spend(rng, true, 1, 100_000)],
+                vec![],
+            ),
+            // Orchard change only, the other pool with spend + output
+            (vec![], vec![out(2, Internal, 25_000, true, b"c")], vec![spend(rng, true, 2, 300_000)], vec![out(1, External, 60_000, false, b"pay")]),
+            // Orchard spend, remainder to an Ironwood output only
+            (vec![spend(rng, false, 0, 200_000)], vec![], vec![], vec![out(0, Internal, 90_000, false, b"to ironwood")]),
+            // Orchard spend + change, Ironwood output only
+            (vec![spend(rng, false, 1, 250_000)], vec![out(1, Internal, 50_000, true, b"")], vec![], vec![out(2, External, 70_000, false, b"x")]),
+            // Orchard change next to an Orchard spend (control)
+            (vec![spend(rng, false, 0, 150_000)], vec![out(0, Internal, 60_000, true, b"")], vec![], vec![]),
+        ];
+        for (k, (os, oo, is, io)) in shapes.into_iter().enumerate() {
+            for path in [Path::Deferred, Path::Pczt] {
+                let mut r = base_request(H_NU6_3 + (k as u32 % 3));
+                r.orchard_anchor = true;
+                r.ironwood_anchor = true;
+                r.o_spend = os.clone();
+                r.o_out = oo.clone();
+                r.i_spend = is.clone();
+                r.i_out = io.clone();
+                r.tunable = if !os.is_empty() { Tunable::OSpend(0) } else { Tunable::ISpend(0) };
+                if k % 2 == 1 {
+                    r.orchard_pad = Pad { required: false, min: Some(1) };
+                }
+                v.push((path, r));
+            }
+        }
+    }
     // explicit V4 after NU5 while the padding policy demands an (all-dummy) Orchard bundle
     for h in [H_NU5, H_NU6_2, H_NU6_3] {
         let mut r = base_request(h);
@@ -786,7 +876,15 @@ fn main() {
     if args.shard == 0 {
         for (path, req) in probes(&mut rng) {
             c.r.count("handmade_probes", 1);
+            let change_only = req.o_spend.is_empty() && !req.o_out.is_empty() && req.o_out.iter().all(|o| o.change);
+            let before = c.r.counter("builds_ok");
             run_case(&mut c, &mut rng, path, req);
+            if c.r.counter("builds_ok") > before {
+                c.r.count("handmade_probes_emitted", 1);
+                if change_only {
+                    c.r.count(&format!("probe_orchard_change_only_emitted:{}", path_name(path)), 1);
+                }
+            }
         }
     }
 
@@ -803,6 +901,7 @@ fn main() {
                     hostile: true,
                     pczt_heights: false,
                     balanced_only: false,
+                    big_multisig: true,
                     max_io: 4,
                 },
             )
@@ -814,6 +913,7 @@ fn main() {
                     hostile: true,
                     pczt_heights: false,
                     balanced_only: false,
+                    big_multisig: true,
                     max_io: 4,
                 },
             )
@@ -825,6 +925,7 @@ fn main() {
                     hostile: true,
                     pczt_heights: rng.gen_bool(0.9),
                     balanced_only: false,
+                    big_multisig: true,
                     max_io: 4,
                 },
             )
@@ -836,6 +937,7 @@ fn main() {
                     hostile: false,
                     pczt_heights: true,
                     balanced_only: false,
+                    big_multisig: true,
                     max_io: 3,
                 },
             )
@@ -918,6 +1020,7 @@ fn main() {
                 hostile: false,
                 pczt_heights: true,
                 balanced_only: true,
+                    big_multisig: true,
                 max_io: 2,
             },
         );
